@@ -16,6 +16,9 @@ Fixpoint echo (p : list key) (h : list input) : list event :=
   | i :: h' => echo_one p i ++ echo (phys_after p i) h'
   end.
 
+Lemma filter_all_true {A} (l : list A) : filter (fun _ => true) l = l.
+Proof. induction l as [|x t IH]; cbn; [reflexivity | rewrite IH; reflexivity]. Qed.
+
 Section S.
 Variable is_action : key -> bool.
 
@@ -36,9 +39,8 @@ Proof.
     assert (Hram : release_action_mappings is_action
                      (set_rtrig (set_absd s (remove_all k (absd s))) None)
                    = ([], set_rtrig (set_absd s (remove_all k (absd s))) None)).
-    { unfold release_action_mappings, ram_keys. sf. rewrite Ha, Hm, Hab. cbn. rewrite Hp.
-      destruct s; cbn in *. subst. f_equal. f_equal.
-      induction inp as [|x t IH]; [reflexivity|]. cbn. f_equal. apply IH. inversion Hnd; assumption. }
+    { unfold release_action_mappings, ram_keys. sf. rewrite Ha, Hm. cbn [flat_map dedup fold_left map filter mem existsb negb].
+      rewrite filter_all_true. destruct s; cbn in *; subst; reflexivity. }
     destruct (is_action k).
     + rewrite Hram. unfold release_absorbed_keys. sf. rewrite Hab. cbn [remove_all filter fold_left app].
       cbn [fst snd]. sf. repeat split; try assumption; try reflexivity.
@@ -48,7 +50,9 @@ Proof.
       * rewrite Hab. reflexivity.
       * rewrite Hp. reflexivity.
       * apply NoDup_snoc; [exact Hnd | apply mem_false; exact Ek].
-  - destruct (mem k (inp s)) eqn:Ek; [|cbn [fst snd]; repeat split; assumption].
+  - destruct (mem k (inp s)) eqn:Ek;
+      [|cbn [fst snd]; split; [reflexivity|]; split; [repeat split; assumption|];
+        symmetry; apply remove_all_notin; apply mem_false; exact Ek].
     unfold newly_release. rewrite Ha. cbn [length release_loop].
     unfold release_pass. rewrite Hp, Ek. cbn [fst snd app]. sf.
     rewrite (remove_last_NoDup k (inp s) Hnd).
@@ -86,7 +90,7 @@ Lemma plain_mstep s i :
 Proof.
   intros Hpl. destruct i as [e|]; cbn [mstep].
   - destruct (plain_step s e Hpl) as [H1 [H2 H3]].
-    destruct (step is_action [] s e) as [[evs rep] s']. cbn [fst snd] in *. repeat split; assumption.
+    destruct (step is_action [] s e) as [[evs rep] s']. cbn [fst snd] in *. split; [exact H1|]. split; [exact H2|exact H3].
   - unfold release_all.
     destruct Hpl as [Ha [Hm [Hab [Hp Hnd]]]].
     destruct (plain_release_all (inp s) [] s (conj Ha (conj Hm (conj Hab (conj Hp Hnd)))) Hnd (fun k H => H)) as [H1 [H2 H3]].
